@@ -50,6 +50,12 @@ func coreC05(tier string) []RunSpec {
 		}
 		rec(nil)
 	}
+	// a swap of the melt's inputs racing the melt request, for each pay answer
+	for pay := 0; pay < 4; pay++ {
+		for k := 0; k < 6; k++ {
+			out = append(out, RunSpec{Profile: "core:race", Params: map[string]int{"race": 1, "pay": pay, "k": k, "n": 0}})
+		}
+	}
 	// one storage error inside the melt call or inside the poll that would adopt the outcome
 	for pay := 0; pay < 4; pay++ {
 		for k := 1; k <= 12; k++ {
@@ -211,6 +217,15 @@ func runC05(rc *RunCtx) {
 			}
 			q, _ = m.User.ReqMeltQuote("A", inv.Bolt11, mppMsat)
 		})
+	}
+	// separate configuration: somebody tries to swap the melt's inputs while the melt request is
+	// being processed ("unusable elsewhere"): the two requests are interleaved by the tape
+	race := rc.P("race", 0) == 1 || (random && !dbf && T.Chance("race", 1, 4))
+	if race {
+		if c05Race(rc, m, inv, amt, mpp, c05Pay[pay], fail) {
+			rc.Nontrivial = true
+		}
+		return
 	}
 	if dbf && fwhere == 0 {
 		rc.S.BeginEpisode(&FaultPlan{Node: "A", Kind: "db_error", SeamKind: "db", Pos: fpos})
@@ -536,4 +551,102 @@ func c05Faulted(rc *RunCtx, m *MW, q *MeltQuote, ins []*HProof, Ys []string, inv
 	}
 	W.Book.FinalizeMelts()
 	rc.Nontrivial = true
+}
+
+// c05Race: the melt and a swap of the very same inputs run concurrently. Whatever the interleaving:
+// if the melt got as far as a payment attempt (its inputs are locked or spent), the swap must have
+// been refused; afterwards, while the payment is in flight, the inputs are PENDING and a second
+// swap is refused; once the outcome is final the polls adopt it.
+func c05Race(rc *RunCtx, m *MW, inv *LNInvoice, amt uint64, mpp bool, payMode string, fail func(string, string, ...any)) bool {
+	W := rc.W
+	var q *MeltQuote
+	var ins []*HProof
+	rc.S.BeginEpisode()
+	rc.S.Run1("quote", W.Ext, func() {
+		var mppMsat uint64
+		if mpp {
+			mppMsat = amt * 1000 / 2
+		}
+		q, _ = m.User.ReqMeltQuote("A", inv.Bolt11, mppMsat)
+		if q != nil {
+			if ins = m.TakeFor("A", q.Amount+q.Reserve); ins != nil {
+				m.User.remove("A", ins)
+			}
+		}
+	})
+	if q == nil || ins == nil {
+		return false
+	}
+	ks := W.ActiveKeyset("A")
+	fee := m.feeFor("A", ins)
+	outs := W.NewOutputs(Split(SumH(ins)-fee), ks.ID)
+	var meltResp, swapResp *Resp
+	rc.S.BeginEpisode()
+	rc.S.Go("melt", W.Ext, true, func() { meltResp = m.User.Melt("A", q.ID, ins) })
+	rc.S.Go("raceswap", W.Ext, true, func() { _, swapResp = m.Atk.Swap("A", ins, outs) })
+	rc.S.Drive(false)
+	rc.S.Probe("c05_race_episode")
+	if meltResp == nil || swapResp == nil {
+		return false
+	}
+	p := W.LN.Payments["A|"+inv.Hash]
+	attempted := p != nil && p.Attempts > 0
+	if swapResp.OK() {
+		rc.S.Probe("c05_race_swap_won")
+		// (after a definitive failure the inputs are released again and a late swap is legitimate)
+		if attempted && (p.Truth == ptInflight || p.Truth == ptSucceeded) {
+			fail("locked_spendable", "a swap of the melt's inputs succeeded although the melt went on to a payment that is %s (melt answered %v)", p.Truth, meltResp)
+		}
+		return true
+	}
+	if !attempted {
+		return true
+	}
+	rc.S.Probe("c05_race_melt_won")
+	// the melt holds the inputs: while the payment may still succeed they are PENDING and unusable
+	Ys := make([]string, len(ins))
+	for i, x := range ins {
+		Ys[i] = x.Y()
+	}
+	state := func() (qs, ps string) {
+		rc.Quietly(func() {
+			qs = RespState(m.User.PollMeltQuote("A", q.ID))
+			r := m.User.CheckState("A", Ys)
+			if states, _ := r.Body["states"].([]any); len(states) > 0 {
+				sm, _ := states[0].(map[string]any)
+				ps, _ = sm["state"].(string)
+			}
+		})
+		return
+	}
+	if p.Truth == ptInflight {
+		// scripted lookups are over: the backend answers truthfully "pending"
+		delete(W.LN.Scripts, inv.Hash)
+		qs, ps := state()
+		if qs != "PENDING" || ps != "PENDING" {
+			fail("race_state", "payment in flight after a racing swap was refused: quote %s, inputs %s (statement: PENDING)", qs, ps)
+		}
+		var sr *Resp
+		rc.Quietly(func() { _, sr = m.Atk.Swap("A", ins, W.NewOutputs(Split(SumH(ins)-fee), ks.ID)) })
+		if sr.OK() {
+			fail("locked_spendable", "inputs of an in-flight melt were swapped")
+		}
+		W.LN.ResolveInflight("A|"+inv.Hash, rc.T.Chance("race.final", 1, 2))
+	}
+	delete(W.LN.Scripts, inv.Hash)
+	qs, ps := state()
+	qs, ps = state()
+	switch p.Truth {
+	case ptSucceeded:
+		if qs != "PAID" || ps != "SPENT" {
+			fail("not_converged", "the payment succeeded (after a racing swap was refused), quote %s, inputs %s", qs, ps)
+		}
+	case ptFailed:
+		if qs != "UNPAID" || ps != "UNSPENT" {
+			fail("not_converged", "the payment failed (after a racing swap was refused), quote %s, inputs %s", qs, ps)
+		}
+	}
+	W.Book.FinalizeMelts()
+	_ = payMode
+	return true
 }
